@@ -131,6 +131,10 @@ def strat_history(draw, tier, complete_only=False):
                                                 small_value()),
                                       max_size=2)),
                 "name": draw(st.integers(0, 7)),
+                # keep the drawn name even if a compatible scope already has
+                # a field of that name (the definition must then be refused
+                # and leave nothing behind)
+                "dup": draw(st.integers(0, 5)) == 0,
                 "length": draw(st.one_of(st.none(), st.none(),
                                          st.integers(1, 5),
                                          st.integers(1, length))),
@@ -225,6 +229,7 @@ def run_history(case, check_complete=False, strict=False, dry=False,
         with sut("BitField()"):
             bf = BitField(length)
     model.strict = strict
+    model.dry = dry
     # caller-owned tag sets: per history by default; C17 passes one pool per
     # process (a module-level constant of the user's program)
     model.shared_sets = shared_pool if shared_pool is not None else {}
@@ -290,9 +295,13 @@ def _do_add(model, bf, step, stats):
         return
     visible = set(f["name"] for n, f in model.potential_fields(values))
     name = NAMES[step["name"] % len(NAMES)]
+    duplicate = False
     if name in visible:
-        free = [n for n in NAMES if n not in visible]
-        name = free[0] if free else "f%d" % stats["adds"]
+        if step.get("dup"):
+            duplicate = True
+        else:
+            free = [n for n in NAMES if n not in visible]
+            name = free[0] if free else "f%d" % stats["adds"]
     scope = _call_scope(bf, values, "bit field scope")
     if scope is None:
         return
@@ -302,6 +311,8 @@ def _do_add(model, bf, step, stats):
             f["max"] = max(f["max"], values[f["name"]])
             f["seen"].add(values[f["name"]])
     ln, start = step["length"], step["start_at"]
+    if duplicate:
+        start = None          # so that the name is the only possible clash
     rel = step.get("start_rel")
     if start is not None and rel:
         anchored = [f for n in model.nodes for f in n.fields
@@ -343,6 +354,13 @@ def _do_add(model, bf, step, stats):
                                          "now": sorted(shared)})
         tags = sorted(key)
     stats["adds"] += 1
+    if duplicate:
+        require(getattr(model, "dry", False) or not accepted,
+                "a second field of the same name in a "
+                "compatible scope is accepted", {"name": name,
+                                                 "scope": values})
+        stats["rejected_adds"] += 1
+        return
     if must_reject is not None:
         require(not accepted, "an explicit field definition that %s is "
                 "accepted" % must_reject,
